@@ -471,7 +471,7 @@ def presentList (bits : List Bool) : Option (List Bool) → List Bool
   | some p => p
   | none => bits.map fun _ => true
 
-/-- `KleeneNullMap::execute` for two boolean buffers (since fix of C03-and-or-null; before: `combine_nulls`, i.e. NULL
+/-- `KleeneNullMap::execute` for two boolean buffers (since fix 92690d6; before: `combine_nulls`, i.e. NULL
     whenever an operand is NULL). -/
 def kleenePresent (isOr : Bool) (lb : List Bool) (lp : Option (List Bool)) (rb : List Bool) (rp : Option (List Bool)) : List Bool :=
   List.zipWith (fun (x y : Bool × Bool) => kleeneKnown isOr x.2 x.1 y.2 y.1)
